@@ -251,7 +251,12 @@ class Tokenizer:
                     if len(line[: len(line) - len(text)].expandtabs(8)) < block_indent:
                         lines = {k: v for k, v in lines.items() if k < lnum}
                         break
-        string = "".join(lines.values())
+        if lines:
+            # a physical line on which no token starts (only a backslash) belongs to the text too
+            for lnum in range(start[0] + 1 if is_block else min(lines), max(lines)):
+                if lnum not in lines:
+                    lines[lnum] = self.get_lines([lnum])[0]
+        string = "".join(line for _, line in sorted(lines.items()))
         if is_indented:
             import textwrap
 
